@@ -480,15 +480,21 @@ class SpecSM:
                 self.bump("act:raise")
                 raise ModelAbort()
             elif act and act[0] == "nsn2":
-                # two next_state_now() calls in one body: the engage request was used up by the first nested
-                # iteration, so the second one runs as an iteration without a request
+                # two next_state_now() calls in one body: C01 - "exactly one state function runs in the iteration
+                # (plus one more for each explicit next_state_now())": both targets run, under the request of the
+                # iteration in progress (unless the machine was stopped in between)
                 self.bump("act:two-next_state_now")
+                ctx["two-nsn"] = True
                 self._enter(act[1])
                 self.execute(now, now_d, ev, depth + 1)
+                if ctx["requested"] and self.executing:
+                    self.requested = True
                 if not self.executing:
                     self.left_selected = act[2]  # the machine stopped in between: what follows is a left-over selection
                 self._enter(act[2])
                 self.execute(now, now_d, ev, depth + 1)
+                if ctx["requested"] and self.executing:
+                    self.requested = True
             elif act and act[0] == "dnsn":
                 self.bump("act:done-then-next_state_now")
                 if not ev.take_done():
@@ -1045,7 +1051,8 @@ def trace_rules(pid, spec, rows, lab):
                     idle = True
             else:
                 idle = False
-                if r.get("last_ctl") == "engage":
+                if r.get("last_ctl") == "engage" and not any(e[0] == "done" for e in r["calls"]):
+                    # ("when engage() was called and done() was not": a state that called done() is outside the claim)
                     if default in names:
                         lab.flag("C01/rule-c-default", f"iteration {r['i']}: default state ran although engage() was called")
         if pid == "C03":
@@ -1248,6 +1255,11 @@ def decode_sm_case(code, profile):
         case["bases_first"] = True
     if cname_c == 1 and timed and not case.get("auto"):
         case["pre_dur"] = {timed[t0_c % len(timed)]: [30_000, 70_001, 1, 250_000, 20_000, 500][t0_c]}
+    if t0_c == 2 and len(names) >= 2:
+        # some state bodies call next_state_now() twice
+        for k, sd in enumerate(case["states"]):
+            if sd["kind"] != "default":
+                sd["script"] = [(["nsn2", a[1], names[(k + j + 1) % len(names)]] if a[0] == "nsn" and j % 2 == 0 else a) for j, a in enumerate(sd["script"])]
     if t0_c == 5 and cname_c == 0:
         # done() followed by next_state() in one state body leaves a selection behind on a stopped machine
         mf_eff = {sd["n"]: bool(sd.get("mf")) for sd in case["states"]}
